@@ -336,6 +336,17 @@ def simplify_spec(spec, keep=()):
         s = _copy(spec)
         s["excl"] = None
         yield s
+    if spec.get("deriv"):
+        for i, (o, rd) in enumerate(spec["deriv"]):
+            for r in rd:
+                if o != r:  # a deriver that reads one key less
+                    s = _copy(spec)
+                    s["deriv"][i][1] = [x for x in rd if x != r]
+                    yield s
+    if spec["dims"] is not None:
+        s = _copy(spec)
+        s["dims"] = None
+        yield s
     for g in groups_of(spec):  # shorten a group (never down to an empty list)
         n = len(dict(spec["items"])[g[0]])
         if n >= 2:
